@@ -132,6 +132,10 @@ def check(chk, fx):
     gct(chk, fx)
     errcol(chk, fx)
     lockp(chk, fx)
+    # which states accept the error token, and when a reduce is offered for it, is decided by the table: the
+    # structural rules of the table construction are necessary conditions of this property as well
+    from .. import lr
+    lr.all_table_rules(chk, fx)
 
 
 def modes(chk, fx, tables):
